@@ -46,17 +46,16 @@ def replay_instances(ctx):
     if ctx.tier == "thorough":
         out += [
             inst("addr2lo", ("c1", "c2"), "priv", "lo", "addr"),
-            inst("all2", ("c1", "c2"), "pub", "priv", "all"),
+            inst("mix2", ("c1", "c2"), "pub", "lo", "mix"),
         ]
     return out
 
 
 def exhaustive_instances(ctx):
-    out = [inst("addr3", ("c1", "c2", "c3"), "pub", "priv", "addr")]
-    if ctx.tier != "thorough":
-        out.append(inst("all2", ("c1", "c2"), "pub", "priv", "all"))
-    else:
+    out = [inst("addr3", ("c1", "c2", "c3"), "pub", "priv", "addr"), inst("all2", ("c1", "c2"), "pub", "priv", "all")]
+    if ctx.tier == "thorough":
         out.append(inst("all2d", ("c1", "c2"), "lo", "pub", "all", psmaxprotos=128))
+        out.append(inst("mix3", ("c1", "c2", "c3"), "priv", "pub", "mix"))
     return out
 
 
@@ -109,15 +108,15 @@ def _edge_stats(g):
             st["key_" + m["key"]] += 1
             st["la_" + m["la"]] += 1
             st["pr_" + m["pr"]] += 1
-            if t["a"]["R"]["mode"] == "some":
+            if t["R"][1] == "some":
                 st["consume_peerstore_cap"] += 1
-            if n == "done" and t["cs"][op["c"]] != "open":
+            if n == "done" and t["c"][op["c"]][0] != "open":
                 st["done_after_close"] += 1
         if n == "disconnected":
             st["disc_" + ("other_open" if op["con"] else "last")] += 1
-            if not op["con"] and _s["a"]["R"]["ttl"] == "conn":
+            if not op["con"] and _s["R"][0] == "conn":
                 st["disc_downgrade"] += 1
-                if t["a"]["R"]["mode"] == "some":
+                if t["R"][1] == "some":
                     st["disc_recent_cap"] += 1
             if op["pending"]:
                 st["disc_identify_in_flight"] += 1
@@ -224,12 +223,17 @@ def _replay_instance(args):
         extra += 1
     steps = sum(len(w["steps"]) for w in walks)
     graph.write_behaviours(os.path.join(beh_dir, name + ".jsonl"), walks,
-                           {"name": name, "conf": conf[0], "edges": g.n_edges(), "states": g.n_states()})
+                           {"name": name, "conf": conf[0], "edges": g.n_edges(), "states": g.n_states(),
+                            "state_layout": "{R, F: [ttl class, exact|some, address tokens, count, must-have tokens, protocol tokens, key, agent/protocol version], c: {conn: [new|open|closed|done, Connected delivered, entry in idService.conns, identify in flight idle|run]}}"})
     return name, r.distinct, r.generated, g.n_edges(), len(walks), steps, stats, r.wall, g.n_states(), extra
 
 
 def _sections(ctx):
     return goenv.run_harness(ctx, PKG, "^TestVerifC13Sections$", timeout=900)
+
+
+def _hosts(ctx):
+    return goenv.run_harness(ctx, "./p2p/protocol/identify", "^TestVerifC13Hosts$", timeout=1500)
 
 
 def _replay(ctx, beh_dir):
@@ -249,6 +253,7 @@ def run(ctx):
     with cf.ProcessPoolExecutor(max_workers=1) as pe, cf.ProcessPoolExecutor(max_workers=2) as pr, \
             cf.ProcessPoolExecutor(max_workers=1) as ps:
         fs = ps.submit(_sections, ctx)
+        fh = ps.submit(_hosts, ctx)
         fr = [pr.submit(_replay_instance, (ctx, i, beh_dir)) for i in rinsts]
         fe = [pe.submit(_exhaustive, (ctx, i, 2)) for i in einsts]
         fl = pe.submit(_liveness, ctx)
@@ -256,7 +261,8 @@ def run(ctx):
         rres = [f.result() for f in fr]
         log("C13: graphs and walks done at %.1fs" % ctx.wall())
         sections = fs.result()
-        log("C13: section probe done at %.1fs" % ctx.wall())
+        hosts = fh.result()
+        log("C13: section probe and real-host rounds done at %.1fs" % ctx.wall())
         fp = ps.submit(_replay, ctx, beh_dir)
         eres = [f.result() for f in fe]
         live = fl.result()
@@ -284,19 +290,26 @@ def run(ctx):
             raise MachineryError("vacuity guard: no replayed transition of kind %s" % k)
 
     div = classify_mismatches(ctx, sections, "sections")
+    div += classify_mismatches(ctx, hosts, "hosts")
+    hx = hosts.get("extra") or {}
+    if not hosts["mismatches"]:
+        for k in ("hostile_message_consumed", "hostile_addresses_recorded_for_B", "fault_close-mid", "fault_silent"):
+            if not hx.get(k):
+                raise MachineryError("vacuity guard: real-host rounds never reached %s" % k)
     div += classify_mismatches(ctx, res, "replay")
     if not res["mismatches"] and res["distinct"] < edges_total:
         raise MachineryError("replay executed %d distinct transitions of %d" % (res["distinct"], edges_total))
     modes = (res.get("extra") or {}).get("chunk_modes") or {}
     if not res["mismatches"]:
-        for k in ("one", "split", "dup", "nine", "probe_settled", "probe_as_is", "lax_keybook_walks", "limited_conn_walks"):
+        for k in ("one", "split", "dup", "nine", "probe_settled", "probe_as_is", "lax_keybook_walks", "limited_conn_walks",
+                  "probe_addresses_must_vanish", "probe_addresses_must_survive"):
             if not modes.get(k):
                 raise MachineryError("vacuity guard: harness variant %s never exercised" % k)
-    log("C13: exhaustive %s; liveness %s; replay %s; %d replay transitions, %d walks, %d steps; sections %d scenarios; L2 divergences %d; guards %s"
+    log("C13: exhaustive %s; liveness %s; replay %s; %d replay transitions, %d walks, %d steps; sections %d scenarios; real-host rounds %d; L2 divergences %d; guards %s"
         % ([(r[0], r[1], r[2], r[3]) for r in eres], live, [(r[0], r[8], r[3], r[4], r[7]) for r in rres],
-           edges_total, n_walks, res["steps"], sections["replayed"], div, guards))
+           edges_total, n_walks, res["steps"], sections["replayed"], hosts["replayed"], div, guards))
     cov = evidence.mc_coverage(
-        states, trans, res["replayed"] + sections["replayed"], res.get("samples") or [], exhaustive=True,
+        states, trans, res["replayed"] + sections["replayed"] + hosts["replayed"], res.get("samples") or [], exhaustive=True,
         checker_cmd="tlc C13_MC.tla (template C13_MC.cfg instantiated: exhaustive %s + liveness live2; printed+replayed %s)" % (
             ",".join(r[0] for r in eres), ",".join(r[0] for r in rres)),
         instances=len(eres) + len(rres) + 1,
@@ -306,6 +319,7 @@ def run(ctx):
         replay_transitions_in_graphs=edges_total, replay_steps_executed=res["steps"],
         replay_distinct_transitions_executed=res["distinct"], replay_transition_kinds=dict(tot),
         harness_variants=modes, section_scenarios=sections["replayed"], section_extra=sections.get("extra"),
+        real_host_rounds=hosts["replayed"], real_host_extra=hx, real_host_rule=hosts.get("rule"),
         divergences_L2=div, notes=ctx.notes[:10], rule=res.get("rule"), sections_rule=sections.get("rule"))
     return {"level": "model_checking", "coverage": cov, "assumptions": [
         "two peers (the remote R of every connection, a foreign F that is never connected), <=2 connections replayed (3 exhaustively), each opened and closed once",
